@@ -74,14 +74,21 @@ def stepOf (j : Json) : R Step := do
   | "taskDone" => pure (.taskDone (← getNat j "i"))
   | "execRun" => pure (.execRun (← getNat j "i"))
   | "loopRun" => pure (.loopRun (← getNat j "i"))
+  | "configChanged" => pure .configChanged
+  | "appRefresh" => pure .appRefresh
+  | "appUnpair" => pure (.appUnpair (← getNat j "client"))
   | _ => throw s!"unknown step {kind}"
+
+def jtxt (txt : List (String × String)) : Json :=
+  Json.arr (txt.map fun (k, v) => Json.arr #[Json.str k, Json.str v]).toArray
 
 def jobs (o : Obs) : Json :=
   match o with
   | .write c r => Json.arr #["write", Json.num c, Json.num r]
   | .cipher c r => Json.arr #["cipher", Json.num c, Json.num r]
   | .publish r txt =>
-    Json.arr #["publish", Json.num r, Json.str ((Hap.Advert.lookup "sf" txt).getD "?")]
+    -- the whole TXT record of the refresh, and its cause (request id / null = application)
+    Json.arr #["publish", jopt (fun (n : Nat) => Json.num n) r, jtxt txt]
 
 def infoOf (j : Json) : R Info := do
   pure { display := ← getChars j "name", category := ← getNat j "category",
@@ -130,7 +137,10 @@ def handle (j : Json) : R Json := do
       | .arr #[c, .bool a] => pure (← asNat c, a)
       | _ => throw "paired entry must be [client, admin]"
     let steps ← (← getArr j "steps").toList.mapM stepOf
-    let info : Info := { display := ['x'], category := 1, mac := [], cfg := 1, paired := false, setupHash := "" }
+    -- the accessory the script runs on (name, category, mac, configuration number at start, setup hash)
+    let info : Info := { display := ← getChars j "name", category := ← getNat j "category",
+                         mac := (← getStr j "mac").toList, cfg := ← getNat j "cfg", paired := false,
+                         setupHash := ← getStr j "sh" }
     -- verified controller per connection: [[conn, client], ...]
     let sessions ← (← getArr j "sessions").toList.mapM fun e => do
       match e with
@@ -141,7 +151,10 @@ def handle (j : Json) : R Json := do
                       ("paired", Json.arr (s.paired.map fun (c, a) => Json.arr #[Json.num c, Json.bool a]).toArray),
                       ("pending", Json.num (s.execQ.length + s.loopQ.length)),
                       ("closed", Json.arr (s.closed.map fun (k : Nat) => Json.num k).toArray),
-                      ("adv_sf", jopt Json.str (advertisedSf (initialSf info paired) s.log))])
+                      ("cfg", Json.num s.info.cfg),
+                      ("registered", jtxt (initialRecord info paired)),
+                      ("adv", jtxt (advertised (initialRecord info paired) s.log)),
+                      ("adv_sf", jopt Json.str (advertisedSf (initialRecord info paired) s.log))])
   | "consts" =>
     -- the constants the model fixes, for comparison with the ones in the source
     pure (Json.mkObj [("MAX_CONFIG_VERSION", Json.num MAX_CONFIG_VERSION),
